@@ -285,7 +285,7 @@ def run(m: Model, r: Report, tier: str) -> None:
     g = CFG(rad.node)
     adv = [n for n in g.nodes.values() if n.kind == "stmt" and isinstance(n.ast, ast.Assign) and m.mtext(rad, n.ast) == "self.last_response = _L[0]"]
     nul = [n for n in g.nodes.values() if n.kind == "cond" and n.ast is not None and m.mtext(rad, n.ast) == "_L is not None"
-           and any("parse_dynamic(" in ast.unparse(b) for s_ in ast.walk(rad.node) if isinstance(s_, ast.If) and s_.test is n.ast for b in s_.body)]
+           and any("parse_dynamic(" in ast.unparse(b) for s_ in ast.walk(rad.node) if isinstance(s_, ast.If) and s_.test is n.ast for b in s_.body if not isinstance(b, ast.If))]
     dom = g.dominators()
     r.check(len(adv) == 1 and len(nul) == 1 and adv[0].id in dom[nul[0].id], "R4", f"{rad.qualname}#cursor-advances",
             "the replay cursor must advance for every matched row, also when the recorded reply is NULL; otherwise a repeated request keeps "
